@@ -1,9 +1,35 @@
 import RegexVerif.Sexp
+import RegexVerif.Model.Scan
+import RegexVerif.Driver.C07
 
 namespace RegexVerif.Driver
-open RegexVerif Sexp
+open RegexVerif Sexp RegexVerif.Scan
 
-/-- protocol lines with head `c06` (stub) -/
-def handleC06 (_args : List Sexp) : String := "(unimplemented)"
+def attEntry? : Sexp → Option (Option (Nat × Nat))
+  | .atom "x" => some none
+  | .list [i, l] =>
+    match i.nat?, l.nat? with
+    | some i, some l => some (some (i, l))
+    | _, _ => none
+  | _ => none
+
+/-- `(c06 (n N) (ks (k…)) (row (att…)))` with `att` = `x` or `(index len)`: the single-position
+    matches of a `\G`-free left-to-right pattern. ↦ `(ok (k K compatAll findAll stdAll)…)` where the
+    first two run the regexp2 loops over the trivially accelerated scan (every position is a
+    candidate) and the third runs the standard library's loop over "leftmost match at or after pos". -/
+def handleC06 (args : List Sexp) : String :=
+  let get (key : String) : Option Sexp := (lookup key args).bind (·.head?)
+  match (get "n").bind nat?, (get "ks").bind ints?, (get "row").bind list? with
+  | some n, some ks, some row =>
+    match row.mapM attEntry? with
+    | none => "(bad-op)"
+    | some atts =>
+      let tab := atts.toArray
+      let attempt : Nat → Option (Nat × Nat) := fun p => (tab[p]?).bind id
+      let E : Engine := { finder := fun _ pos => (true, pos), after := fun _ q => q, attempt := fun _ => attempt, minLen := 0 }
+      let perK := ks.map fun k => Sexp.list [.atom "k", ofInt k, spansSexp (compatAll E false n k), spansSexp (findAll E false n k),
+        spansSexp (stdAll (findFromOf attempt n) n k)]
+      toString (Sexp.list (.atom "ok" :: perK))
+  | _, _, _ => "(bad-op)"
 
 end RegexVerif.Driver
